@@ -232,6 +232,11 @@ type VC struct {
 	smtUsed     map[string]bool
 	prelude     []*preludeEntry
 	sentinels   []Term
+	flagsUsed   []string
+	opaqueDefs  map[string]string
+	scriptHeader string
+	flagValues  map[string]bool
+	revealed    map[string]bool
 	sentinelSeen map[string]bool
 }
 
@@ -242,6 +247,8 @@ func newVC(P *Prog, fn *ssa.Function, mode Mode) *VC {
 		trusted: map[string]bool{}, typeIDs: map[string]int{}, specFnDone: map[string]bool{}, uf: map[string]bool{}}
 	vc.constEpoch = &epoch{id: 0, consts: map[string]Term{}}
 	vc.sentinelSeen = map[string]bool{}
+	vc.revealed = map[string]bool{}
+	vc.opaqueDefs = map[string]string{}
 	vc.closures, vc.closureBind = map[string]*ssa.MakeClosure{}, map[string][]Val{}
 	vc.effectFree, vc.inlined, vc.defs = map[string]int{}, map[string]int{}, map[string]string{}
 	vc.maps, vc.iters, vc.iterComp, vc.libUsed = map[string]*mapInfo{}, map[string]*rangeState{}, map[string]string{}, map[string]int{}
@@ -643,6 +650,10 @@ func (vc *VC) assumeWF(st *State, t Term, typ types.Type) {
 		if isString(typ) {
 			vc.assume(st, mk(fmt.Sprintf("(%s %s)", vc.idxGe0(), "(str-len "+t.S+")"), sortBool))
 		}
+	case *types.Array:
+		if isU256(typ) && vc.mode == ModeMath {
+			vc.assume(st, mk(fmt.Sprintf("(and (<= 0 %s) (< %s %s))", t.S, t.S, pow2(256)), sortBool))
+		}
 	case *types.Struct:
 		if isBigInt(typ) || isBigRat(typ) || isBigFloat(typ) || isU256(typ) {
 			return
@@ -668,6 +679,8 @@ func (vc *VC) idxGe0() string {
 	}
 	return "<= 0"
 }
+
+func pow2(n uint) string { return new(bigInt).Lsh(newBig(1), n).String() }
 
 func intRange(bits int, signed bool) (Term, Term) {
 	one := newBig(1)
